@@ -361,6 +361,7 @@ func (res *CheckResult) checkExpression(lit parser.ValueExpr, requiredType strin
 	case *parser.AccountLiteral:
 		res.assertHasType(lit, requiredType, TypeAccount)
 	case *parser.RatioLiteral:
+		res.checkRatioLiteral(lit)
 		res.assertHasType(lit, requiredType, TypePortion)
 	case *parser.AssetLiteral:
 		res.assertHasType(lit, requiredType, TypeAsset)
@@ -372,6 +373,18 @@ func (res *CheckResult) checkExpression(lit parser.ValueExpr, requiredType strin
 		res.checkExpression(lit.Left, TypeAny)
 		res.checkExpression(lit.Right, TypeAny)
 	}
+}
+
+// Reports a portion literal with a zero denominator (returns whether the literal is valid)
+func (res *CheckResult) checkRatioLiteral(lit *parser.RatioLiteral) bool {
+	if lit.HasZeroDenominator() {
+		res.Diagnostics = append(res.Diagnostics, Diagnostic{
+			Range: lit.Range,
+			Kind:  &DivByZero{},
+		})
+		return false
+	}
+	return true
 }
 
 func (res *CheckResult) assertHasType(lit parser.ValueExpr, requiredType string, actualType string) {
@@ -490,7 +503,9 @@ func (res *CheckResult) checkSource(source parser.Source) {
 				variableLiterals = append(variableLiterals, *allotment)
 				res.checkExpression(allotment, TypePortion)
 			case *parser.RatioLiteral:
-				sum.Add(sum, allotment.ToRatio())
+				if res.checkRatioLiteral(allotment) {
+					sum.Add(sum, allotment.ToRatio())
+				}
 			case *parser.RemainingAllotment:
 				if isLast {
 					remainingAllotment = allotment
@@ -543,7 +558,9 @@ func (res *CheckResult) checkDestination(destination parser.Destination) {
 				variableLiterals = append(variableLiterals, *allotment)
 				res.checkExpression(allotment, TypePortion)
 			case *parser.RatioLiteral:
-				sum.Add(sum, allotment.ToRatio())
+				if res.checkRatioLiteral(allotment) {
+					sum.Add(sum, allotment.ToRatio())
+				}
 			case *parser.RemainingAllotment:
 				if isLast {
 					remainingAllotment = allotment
